@@ -169,7 +169,10 @@ def sampler_digest(sc):
     elfi.Distance("euclidean", m["s"], model=m, name="d")
     h = hashlib.sha256()
     if sc["kind"] == "rejection":
-        res = elfi.Rejection(m["d"], batch_size=sc["bs"], seed=sc["seed"], output_names=["s"]).sample(sc["n"], bar=False, **sc["objective"])
+        smp = elfi.Rejection(m["d"], batch_size=sc["bs"], seed=sc["seed"], output_names=["s"])
+        res = smp.sample(sc["n"], bar=False, **sc["objective"])
+        if sc.get("second_call"):       # the same sampler object asked again: same configuration, same result
+            res = smp.sample(sc["n"], bar=False, **sc["objective"])
         pops = [res]
     else:
         res = elfi.SMC(m["d"], batch_size=sc["bs"], seed=sc["seed"]).sample(sc["n"], bar=False, **sc["objective"])
@@ -204,6 +207,10 @@ def record_sampler(sc):
     one("repeat", [])
     for h in sc["histories"]:
         one("after:" + "+".join(h), h)
+    if sc["kind"] == "rejection":
+        sc["second_call"] = True
+        one("second-sample-call-on-the-same-sampler", [])
+        sc["second_call"] = False
     return dict(bi=0, runs=runs, net_keys=[[97]], net_edges=[], need=[], all_recorded=False, stream=[[0, 1]], state_of=[])
 
 
